@@ -52,7 +52,7 @@ func init() {
 		},
 		Cases: func(tier string, seed uint64) int {
 			if tier == "thorough" {
-				return 3000
+				return 15000
 			}
 			return 400
 		},
